@@ -98,6 +98,7 @@ def build(sc, config_text=None, config_name=".fortlsrc"):
             f.write(text)
     if config_text is not None:
         mode = "wb" if isinstance(config_text, bytes) else "w"
+        os.makedirs(os.path.dirname(os.path.join(root, config_name)), exist_ok=True)
         with open(os.path.join(root, config_name), mode) as f:
             f.write(config_text)
     return root
@@ -194,9 +195,12 @@ def diff(a: dict, b: dict):
     return sorted(k for k in set(a) | set(b) if a.get(k) != b.get(k))
 
 
-def _obs(sc, cli: dict, filecfg: dict | None):
-    root = build(sc, None if filecfg is None else json.dumps(filecfg))
-    err, opts, beh, msgs, _ = observe(root, cli_args(cli))
+def _obs(sc, cli: dict, filecfg: dict | None, config_name=".fortlsrc"):
+    root = build(sc, None if filecfg is None else json.dumps(filecfg), config_name=config_name)
+    argv = cli_args(cli)
+    if config_name != ".fortlsrc":
+        argv += ["--config", config_name]   # a configuration file that does not sit in the root directory
+    err, opts, beh, msgs, _ = observe(root, argv)
     return err, opts, beh
 
 
@@ -211,6 +215,7 @@ def single_case(name, acc: Acc):
         "file_v2": _obs(sc, {}, {name: v2}),
         "cli_v1_file_v2": _obs(sc, {name: v1}, {name: v2}),
         "cli_v1_emptyfile": _obs(sc, {name: v1}, {}),
+        "file_v1_elsewhere": _obs(sc, {}, {name: v1}, config_name="cfgdir/settings.json"),
     }
     for label, (err, o, b) in runs.items():
         acc.case(nontrivial_key=(name, label), outcome=json.dumps([o, b], sort_keys=True, default=str))
@@ -231,6 +236,7 @@ def single_case(name, acc: Acc):
                 what=f"{name}: {x} vs {y} differ in {d1 + d2}"))
 
     same("cli_equals_file", "cli_v1", "file_v1")
+    same("cli_equals_file_outside_root_dir", "cli_v1", "file_v1_elsewhere")
     same("file_wins", "cli_v1_file_v2", "file_v2")
     same("absent_in_file_keeps_cli", "cli_v1_emptyfile", "cli_v1")
     # non-vacuity: the option has an observable effect at all
